@@ -22,7 +22,10 @@ pub const FAM_NEAR_UNDERFLOW: u8 = 13;
 /// sign-alternating records of (nearly) one magnitude: the running sum stays near zero while the
 /// running sum of squares grows (the two registers of a statistics state live on different scales)
 pub const FAM_ALTERNATING: u8 = 14;
-pub const FAMILY_NAMES: [&str; 15] = [
+/// integer-valued records whose running sum lies beyond the mantissa (2^24 in f32, 2^53 in f64):
+/// every rounding residue is itself a small integer, i.e. a value that later records take too
+pub const FAM_INT_BEYOND_MANTISSA: u8 = 15;
+pub const FAMILY_NAMES: [&str; 16] = [
     "uniform-positive",
     "mixed-sign-gaussian",
     "log-uniform-wide",
@@ -38,6 +41,7 @@ pub const FAMILY_NAMES: [&str; 15] = [
     "head-plus-vanishing-increments",
     "just-above-underflow",
     "alternating-sign-near-constant",
+    "integers-beyond-the-mantissa",
 ];
 pub const FAM_EXACT: u8 = 4;
 
@@ -60,7 +64,7 @@ impl TapeSpec {
         match self {
             TapeSpec::Explicit(v) => json!({"hex": v.iter().map(|b| format!("{:x}", b)).collect::<Vec<_>>() }),
             TapeSpec::Gen { family, seed, len, flt, positive, scale_exp } => json!({"gen": {
-                "family": family, "family_name": FAMILY_NAMES[*family as usize % 15], "seed": format!("{:x}", seed), "len": len,
+                "family": family, "family_name": FAMILY_NAMES[*family as usize % FAMILY_NAMES.len()], "seed": format!("{:x}", seed), "len": len,
                 "flt": match flt { Flt::F32 => "f32", Flt::F64 => "f64", Flt::Int => "int" },
                 "positive": positive, "scale_exp": scale_exp }}),
         }
@@ -191,6 +195,16 @@ pub fn gen_tape(family: u8, seed: u64, len: usize, flt: Flt, positive: bool, sca
                     big
                 } else {
                     big * tiny_ratio
+                }
+            }
+            15 => {
+                if i == 0 {
+                    let mant = if flt == Flt::F32 { 24 } else { 53 };
+                    scale * 2f64.powi(mant) * (1 + r.below(3)) as f64
+                } else if r.chance(0.85) {
+                    scale * (1 + r.below(4)) as f64
+                } else {
+                    -scale * (1 + r.below(4)) as f64
                 }
             }
             14 => {
